@@ -482,7 +482,7 @@ def one(seed, i, tier, res, pool):
     if res.get("sample") is None and rich and len(fields) <= 3:
         res["sample"] = {"message": exp_message, "binary_write": repr(fb.ops[-2][1])[:300] if len(fb.ops) > 1 else None}
     if problems:
-        res["violations"].append({"msg": problems[0], "mech": FLAGGED[0] if (FLAGGED[0] == "tz-aware-time" and "must not have tzinfo set" in problems[0]) else None, "detail": {"case": i, "problems": problems[:8], "message": message}})
+        res["violations"].append({"msg": problems[0], "mech": FLAGGED[0], "detail": {"case": i, "problems": problems[:8], "message": message}})
 
 
 class FaultyFile(RecordingFile):
